@@ -5,8 +5,11 @@
 //! usage: harness <stream> <tier> <seed>
 //! output: one line per case: REQUEST \t IMPL-RESPONSE \t TAGS \t DISPLAY
 mod ctxgen;
+mod gen;
 mod prog;
+mod s_eval;
 mod rng;
+mod s_c06;
 mod s_c08;
 mod s_smoke;
 mod wire;
@@ -55,8 +58,22 @@ fn main() {
         n: 0,
     };
     match stream {
+        "C06" => s_c06::run(&mut em, thorough, seed),
         "C08" => s_c08::run(&mut em, thorough, seed),
         "smoke" => s_smoke::run(&mut em),
+        "evalmix" => s_eval::run_profile(
+            &mut em,
+            seed,
+            &s_eval::Profile {
+                n: if thorough { 200_000 } else { 20_000 },
+                depth: 6,
+                typed_pct: 50,
+                wrap_pct: 10,
+                boundary_pct: 30,
+                with_time: true,
+                kind: "mix",
+            },
+        ),
         _ => {
             eprintln!("unknown stream {}", stream);
             std::process::exit(2);
